@@ -3,6 +3,7 @@ package gbk
 import (
 	_ "embed"
 	"fmt"
+	"reflect"
 	"strings"
 )
 
@@ -216,7 +217,7 @@ func (w *lawWriter) structCommon(s *Struct) {
 		q(func(f Field) string { return fmt.Sprint(f.Ty.Opt != nil) }))
 	w.f("func lwGen_%s(r *lwRand, nn bool) %s {\n\treturn %s{\n", s.Name, T, T)
 	for _, f := range nf {
-		w.f("\t\t%s: (%s)(r, false),\n", f.Name, f.Ty.Gen)
+		w.f("\t\t%s: lwNZ(r, %s),\n", f.Name, f.Ty.Gen)
 	}
 	w.f("\t}\n}\n")
 	w.f("func lwFields_%s(x %s) []any {\n\treturn []any{%s}\n}\n", s.Name, T, q(func(f Field) string { return "x." + f.Name }))
@@ -447,7 +448,89 @@ func (w *lawWriter) jsonLaws(s *Struct, hostile int) {
 		w.f("\t\t{name: %q, anonymous: %v, tag: %q, alt: %q, kind: %q},\n", name, f.Embedded, want, alt, f.Ty.FK)
 	}
 	w.f("\t})\n")
-	w.f("\tlwJSONLaws(p, m, r, %v, %v, %d, %d, lwGen_%s, lwFields_%s,\n\t\tfunc(x %s) any { return x.AsMutable() },\n\t\tfunc(t *%s, b []byte) error { return t.UnmarshalJSON(b) },\n\t\tfunc(x %s) ([]byte, error) { return x.MarshalJSON() })\n",
-		s.Faithful(), s.JSONOK(), w.n, hostile, s.Name, s.Name, T, T, T)
+	rfs, refOK := s.RefObject()
+	w.f("\trfs := []lwRefField{\n")
+	for _, f := range rfs {
+		w.f("\t\t{idx: %d, key: %q, omit: %d},\n", f.Idx, f.Key, f.Omit)
+	}
+	w.f("\t}\n")
+	w.f("\tlwJSONLaws(p, m, r, %v, %v, %d, %d, lwGen_%s, lwFields_%s,\n\t\tfunc(x %s) any { return x.AsMutable() },\n\t\tfunc(t *%s, b []byte) error { return t.UnmarshalJSON(b) },\n\t\tfunc(x %s) ([]byte, error) { return x.MarshalJSON() }, rfs, %v)\n",
+		s.Faithful(), s.JSONOK(), w.n, hostile, s.Name, s.Name, T, T, T, refOK)
 	w.f("}\n")
+}
+
+// RefField is one member of the JSON object the spec demands for a value of the struct.
+type RefField struct {
+	Idx  int // index into named()
+	Key  string
+	Omit int // 0 never omitted, 1 omitempty, 2 the tag rule leaves it open
+}
+
+// jsonKey reads the json key and the omitempty option out of a struct tag; goName is the
+// Mutable twin's field name (encoding/json's default key).
+func jsonKey(tag, goName string) (key string, omit, skip, ok bool) {
+	v, found := reflect.StructTag(tag).Lookup("json")
+	if !found {
+		return goName, false, false, true
+	}
+	if v == "-" {
+		return "", false, true, true
+	}
+	parts := strings.Split(v, ",")
+	key = parts[0]
+	if key == "" {
+		key = goName
+	}
+	ok = true
+	for _, o := range parts[1:] {
+		switch o {
+		case "omitempty":
+			omit = true
+		default:
+			ok = false // ",string" and friends change the value encoding: no reference
+		}
+	}
+	return key, omit, false, ok
+}
+
+// RefObject derives, from the spec alone, the members of the JSON object of an @fp.Json
+// struct: every field that is not underscore-prefixed, in declaration order, under the key of
+// its json tag (copied tag, or gombok's rule: json:"<field>" plus omitempty for nilable and
+// Option types). ok = false when the spec has a shape for which encoding/json's own rules
+// (promotion of untagged embedded structs, clashing keys, unexported embedded types) would
+// have to be re-implemented; the reference check is then skipped for the struct.
+func (s *Struct) RefObject() (out []RefField, ok bool) {
+	ok = true
+	seen := map[string]bool{}
+	for j, f := range s.named() {
+		if strings.HasPrefix(f.Name, "_") {
+			continue
+		}
+		want, alt := s.MutableTag(f)
+		key, omit, skip, kok := jsonKey(want, f.MutableName())
+		if !kok {
+			ok = false
+		}
+		if skip {
+			continue
+		}
+		if _, tagged := reflect.StructTag(want).Lookup("json"); f.Embedded && (!tagged || !f.Public()) {
+			ok = false
+		}
+		rf := RefField{Idx: j, Key: key}
+		if omit {
+			rf.Omit = 1
+		}
+		if alt != "" {
+			if _, omit2, _, _ := jsonKey(alt, f.MutableName()); omit2 != omit {
+				rf.Omit = 2
+			}
+		}
+		if seen[key] {
+			ok = false
+		}
+		seen[key] = true
+		out = append(out, rf)
+	}
+	return out, ok
 }
